@@ -214,8 +214,14 @@ pub trait MArch {
     fn iter_mut_item_raw(item: &<Self::Arch as Archetype>::IterItemMut<'_>) -> ((u32, u32), u8);
 }
 
+impl<A: Archetype> Clone for Key<A> {
+    fn clone(&self) -> Self {
+        *self
+    }
+}
+impl<A: Archetype> Copy for Key<A> {}
+
 /// The four key kinds of the API.
-#[derive(Clone, Copy)]
 pub enum Key<A: Archetype> {
     Typed(Entity<A>),
     Any(EntityAny),
@@ -392,6 +398,10 @@ pub trait Paths: MArch {
     fn read_via(w: &mut Self::World, h: Entity<Self::Arch>, path: u8) -> Option<(u8, u32, bool)>;
     /// Writes the columns derived from `(v, x)` to entity `h` through write path `path`.
     fn write_via(w: &mut Self::World, h: Entity<Self::Arch>, path: u8, v: u8, x: u32) -> bool;
+    /// Reads all columns through a key of ANY kind (typed, dynamic, direct, direct-dynamic):
+    /// path 0 ecs_find!, 1 ecs_find_borrow!, 2 Archetype::view fields, 3 Archetype::borrow +
+    /// component, 4 Archetype::resolve + get_slice.
+    fn read_key(w: &mut Self::World, k: Key<Self::Arch>, path: u8) -> Option<(u8, u32, bool)>;
 }
 
 pub const READ_PATH_NAMES: [&str; 12] = [
@@ -475,6 +485,39 @@ macro_rules! paths_impl {
                         let r = Self::un($comps { $($n: a.borrow_slice::<$t>()[i]),* });
                         Some(r)
                     }
+                }
+            }
+
+            fn read_key(w: &mut <Self as $crate::model::MArch>::World, k: $crate::model::Key<$arch>, path: u8) -> Option<(u8, u32, bool)> {
+                use $crate::model::{Key, MArch};
+                macro_rules! with_key {
+                    ($kk:ident => $e:expr) => {
+                        match k {
+                            Key::Typed($kk) => $e,
+                            Key::Any($kk) => $e,
+                            Key::Direct($kk) => $e,
+                            Key::DirectAny($kk) => $e,
+                        }
+                    };
+                }
+                match path {
+                    0 => with_key!(kk => ecs_find!(w, kk, |$($n: &$t),*| Self::un($comps { $($n: *$n),* }))),
+                    1 => with_key!(kk => ecs_find_borrow!(w, kk, |$($n: &$t),*| Self::un($comps { $($n: *$n),* }))),
+                    2 => with_key!(kk => {
+                        let view = Self::arch_mut(w).view(kk)?;
+                        Some(Self::un($comps { $($n: *view.$n),* }))
+                    }),
+                    3 => with_key!(kk => {
+                        let a = Self::arch_mut(w);
+                        let b = a.borrow(kk)?;
+                        let r = Self::un($comps { $($n: *b.component::<$t>()),* });
+                        Some(r)
+                    }),
+                    _ => with_key!(kk => {
+                        let a = Self::arch_mut(w);
+                        let i = a.resolve(kk)?;
+                        Some(Self::un($comps { $($n: a.get_slice::<$t>()[i]),* }))
+                    }),
                 }
             }
 
